@@ -83,7 +83,7 @@ ASSUMPTIONS = [
     "Split is built with bufsize=None (the whole flow is one buffer), Cache with recompute=True and at most one Cache in a "
     "tree whose flow is run (an existing cache file would replace the flow: C18), flow data are ints (Write passes them on)",
 ]
-RULE = ("quick: all trees with <= 2 leaves over 9 leaf kinds (SetContext constant / formatting / nested key, StoreContext, "
+RULE = ("quick: all trees with <= 2 leaves over 10 leaf kinds (SetContext constant / formatting / nested key, StoreContext, "
         "UpdateContextFromStatic, MakeFilename, Write, Cache, plain element), depth <= 2, Sequence and Source tops; a seeded "
         "sample of 6000 trees with 3 leaves over 7 leaf kinds; 4000 seeded random trees of depth <= 3 (Sequence / "
         "Source / tuple branches, 0-3 Split branches, 6 keys, 7 formatting fields incl. unresolvable ones) each with two "
@@ -92,8 +92,8 @@ RULE = ("quick: all trees with <= 2 leaves over 9 leaf kinds (SetContext constan
         "later in-place update of the run-time context below the same parent by a user mutator, a second "
         "UpdateContextFromStatic or MakeFilename; flat, nested, in a Split branch; three values without the key); every "
         "element's static state and names are read before and again after the run.  thorough: "
-        "all trees with <= 3 leaves over the 9 leaf kinds, all trees with 4 leaves over 4 core leaf kinds, 100 000 random "
-        "trees.  Non-trivial: some element saw a non-empty context or "
+        "all trees with <= 3 leaves over 10 leaf kinds (the 9 and the mutator), 120 000 seeded 4-leaf trees over 7 leaf "
+        "kinds, 80 000 random trees.  Non-trivial: some element saw a non-empty context or "
         "derived a formatted name.")
 LEVEL_TEXT = ("Lean 4 theorems about a transcribed model of the multi-pass static-context protocol (bottom-up construction, "
               "_set_context({}) in every constructor, re-propagation by enclosing sequences, skip-while-empty, stale "
@@ -540,7 +540,8 @@ def run_impl(case):
     os.chdir(tmp)
     try:
         recs, out, after = _run_tree(case["tree"], case.get("flow"))
-        res = {"nodes": recs, "out": out, "nodes_after": after}
+        # the state after the run is kept only if it differs from the state before it (memory)
+        res = {"nodes": recs, "out": out, "nodes_after": None if after == recs else after}
         if case.get("variants"):
             res["variants"] = [_run_tree(v, None)[0] for v in case["variants"]]
         return res
@@ -1066,7 +1067,6 @@ def exhaustive_cases(nmax, depth, leaves, source=False):
                     yield {"tree": t, "flow": _flow_for(t, [])}
 
 
-EX_LEAVES_CORE = [EX_LEAVES[0], EX_LEAVES[1], EX_LEAVES[3], EX_LEAVES[4]]   # set a, set b={{a}}_f, store, ucfs
 
 
 def _fill(shape, it):
@@ -1098,8 +1098,8 @@ def sampled_cases(rng, n, depth, leaves, count):
 def gen_cases(ctx):
     """quick: every tree with <= 2 leaves over the 9-leaf alphabet and 6000 seeded draws from the trees with 3 leaves
     over the 7-leaf alphabet (depth <= 2, Sequence and Source tops), 4000 random trees of depth <= 3 with causality
-    variants.  thorough: all trees with <= 3 leaves over the 9-leaf alphabet, all trees with 4 leaves over the 4 core
-    leaves, 100 000 random trees."""
+    variants.  thorough: all trees with <= 3 leaves over the 10-leaf alphabet, 120 000 seeded draws from the trees with 4
+    leaves over the 7-leaf alphabet, 80 000 random trees (memory: the whole case list lives in the parent process)."""
     rng = ctx.rng
     cases = alias_cases()
     if ctx.tier == "quick":
@@ -1108,9 +1108,8 @@ def gen_cases(ctx):
         n_rand = 4000
     else:
         cases.extend(exhaustive_cases(3, 2, EX_LEAVES + EX_LEAVES_MORE, source=True))
-        cases.extend(c for c in exhaustive_cases(4, 2, EX_LEAVES_CORE, source=True)
-                     if len(preorder(c["tree"])) > 1 + 3 + (c["tree"]["kind"] == "Source"))
-        n_rand = 100000
+        cases.extend(sampled_cases(rng, 4, 2, EX_LEAVES, 120000))
+        n_rand = 80000
     for i in range(n_rand):
         pformat = (0.0, 0.3, 0.6)[i % 3]
         cases.append(rand_case(rng, depth=3, pformat=pformat))
